@@ -144,6 +144,7 @@ EXTRA4 = {
  "C10": " Handlers may fail after emitting (notifications delivered, the error answer closes the stream, ids distinct); the client may be in its second or third life (Close, Initialize).",
  "C12": " Registrations without a handler (refused or kept, the registry stays well-formed); a listed entry nobody registered is a phantom; TestC12Notif runs next to a twin server of the same kind with handlers of its own (registries are per server).",
  "C13": " Filters may build their result by appending to a nil slice, and a class of callers is admitted to nothing.",
+ "C15": " A middleware kind answers with a JSON-RPC error object of its own (code, message, data: delivered as returned); one case in three builds a second server in the process from the same leading middleware slice plus a middleware of its own afterwards (a server's chain is fixed at construction).",
  "C16": " A second handshake inside a session whose first one completed (initialize, initialized, initialize with another version).",
  "C17": " One to two earlier retry options (WithRetry / WithSimpleRetry, grid values) precede the judged one: the configuration the client ends up with is clamped and a fixed point.",
  "C18": " jsonschema tags may carry directives the parser does not know (multipleOf, readOnly, typos): the field stays a field. TestC18Tools also runs with a pass-through tool list filter; the input struct re-uses an inner type under described fields.",
